@@ -125,7 +125,8 @@ PROPS['C02'] = dict(
     suites=[dict(name='eg', variant='default', comparator='eg', direction='complete', shrink=False,
                  quick=dict(count=1500), thorough=dict(count=40000)),
             dict(name='eg', variant='checks', comparator='eg', direction='complete', shrink=False,
-                 quick=dict(count=500), thorough=dict(count=10000))],
+                 quick=dict(count=500), thorough=dict(count=10000)),
+            dict(name='eplant', variant='default', shrink=False, quick=dict(count=240), thorough=dict(count=4000))],
     rule=EG_RULE + '. C02 reads the differences where the implementation claims LESS than the spec derives (eq=0 vs 1, more slots, fewer symmetries, more classes), checked right after each union returns; a panic also counts.',
     trusted_base=EG_TRUST,
     assumptions=COMMON_ASSUME,
@@ -241,7 +242,7 @@ PROPS['C03'] = dict(
             dict(name='rw', variant='checks', shrink=False, quick=dict(count=400, timeout=900), thorough=dict(count=8000, timeout=3000))],
     rule='corr.eval: 1-2 start terms over the arithmetic fragment of the main language (add, mul, numbers, symbols, var, sum $x, '
          'let $x, h, k; depth 2-3; slots occur only through (var $x), which is what makes b[(var $x) := t] meaningful), a random '
-         'subset of 2-8 rules of the 31-rule pool proved valid in Lean, 1-4 apply_rewrites iterations within a node budget, with '
+         'subset of 2-8 rules of the 32-rule pool proved valid in Lean, 1-4 apply_rewrites iterations within a node budget, with '
          'SynExprSubst (2/3) or ExtractionSubst (1/3), side conditions either as closures or through the crate\'s slot_free_in/and '
          'helpers (1/2 each). Afterwards, per live class: every e-node with its children replaced by representative terms (built by the '
          'harness bottom-up from enodes(), binders renamed apart), plus the originally inserted term, is evaluated by the Lean model '
@@ -325,8 +326,15 @@ PROPS['C05'] = dict(
          'Lean checker (checkMatch: all variables bound and the instance looks up without inserting; checkEquation: both sides of each '
          'equation are bound and eq). Harness predicates: all variables bound, instance found by the implementation\'s own read-only '
          'lookup, invocations bijective, state dump unchanged by matching (modulo path compression). non-trivial = at least two '
-         'substitutions were judged; distinct = by hash of the case line',
-    trusted_base=EG_TRUST + ['ematch_impl/ematch_node/multi_ematch are not modelled; only their results are judged'],
+         'substitutions were judged; distinct = by hash of the case line. In addition the WHOLE list of matches of every single pattern '
+         '(the four derived ones and the non-linear (k ?v ?v), (add ?v ?v)) is compared with the list computed by the Lean model of '
+         'ematch_all/ematch_impl/ematch_node/final_subst + enodes_applied on the dumped state (query `ematch`), as sets modulo the names '
+         'of fresh slots (numbered by first appearance, variables in name order) and modulo the symmetries of the bound classes '
+         '(smallest rendering over the orbit).',
+    trusted_base=EG_TRUST + ['multi_ematch is not modelled (only its results are judged); the single-pattern matcher is modelled and compared as '
+                             'match SETS: the order of matches, the identity of fresh slots and the choice among symmetric representatives '
+                             '(all consequences of hash-set iteration order) are abstracted by the canonical rendering, implemented twice '
+                             '(Lean driver, Rust harness)'],
     assumptions=COMMON_ASSUME,
 )
 
